@@ -1,7 +1,8 @@
 (* Extract.v -- OCaml extraction of the executable model (Z stays Coq's binary Z). *)
 Require Import ExtrOcamlBasic.
-Require Import AV.Foam.Buf AV.Foam.Syntax AV.Foam.Codec AV.Foam.LibHdr AV.Gen.FoamInfo.
+Require Import AV.Foam.Buf AV.Foam.Syntax AV.Foam.Codec AV.Foam.LibHdr AV.Foam.SExpr AV.Foam.SLex AV.Foam.Archive AV.Gen.FoamInfo.
 Extraction "Foam/extracted/foam.ml"
   dec enc enc_node wf wf_node canon reduce_all zero_x sint_reduce eval_sint tag_format
   read_lib parse_hdr write_hdr chk_header get_section index_of subst_nth
-  foam_params_ok lib_params_ok FP LP places.
+  foam_params_ok lib_params_ok FP LP places
+  wr rd wf_text tcanon ctx0 text_params_ok TP pr_int pr_str rd_int rd_str read_ar find_member.
